@@ -461,6 +461,10 @@ bool femm::FemmProblem::addArcSegment(femm::CArcSegment &asegm, double tol)
             // what is the purpose of this test?
             //	if (abs(nodelist[i]->CC()-nodelist[asegm.n0]->CC())<2.*dmin) d=2.*dmin;
             //	if (abs(nodelist[i]->CC()-nodelist[asegm.n1]->CC())<2.*dmin) d=2.*dmin;
+            // a point closer than dmin to an end point of the arc is not "on" the arc (as in addSegment):
+            // splitting there gives an arc whose other end point is again within dmin, without end
+            if (abs(nodelist[i]->CC()-nodelist[asegm.n0]->CC())<dmin) d=2.*dmin;
+            if (abs(nodelist[i]->CC()-nodelist[asegm.n1]->CC())<dmin) d=2.*dmin;
 
 
             if (d<dmin){
